@@ -1,4 +1,5 @@
 import GqlgenVerif.Lemmas.Exec
+import GqlgenVerif.Lemmas.Collect
 /-!
 # C01 — generated executors implement GraphQL execution semantics (data and errors)
 
@@ -134,7 +135,57 @@ theorem null_stops_at_nullable (o : Oracle) (sh : Shape) (v : V) (p : Path) (h :
         | _ => simp [Spec.completeValue, Spec.failed])) (by intro x hx; simp at hx)).none_nn hn
   rw [h] at this; cases this
 
+/-! ## Stage A: field collection -/
+
+/-- **Field collection = §6.3.2 `CollectFields`.** For every document, fragment table, variable values
+and concrete type: if gqlgen's slot test (`name`, `alias`, related `ObjectDefinition`) agrees with "same
+response key" on the field occurrences that apply to the type (`AgreeOn`: what validation's
+FieldsInSetCanMerge gives for the name, and what fails for two *unrelated* type conditions — F01), then
+gqlgen's nested, incrementally merged collection returns exactly the Spec's grouping by response key:
+same keys, same order of first appearance, same field names and definitions, same merged sub-selection
+lists, same visited set — through any nesting of inline fragments and fragment spreads, `@skip`/`@include`
+with literals or variables, and repeated spreads. (Deferral labels are not compared here: C13.) -/
+theorem collect_eq_spec (s : Schema) (frags : List Frag) (vars : Vars) (sat : List String)
+    (fuel : Nat) (sels : List Sel) (occs : List Spec.Occ) (vis' : List String)
+    (h : Spec.occurrences frags vars (appliesOf sat) fuel sels none [] = some (occs, vis'))
+    (hag : AgreeOn s (keysOf (oview occs))) :
+    ∃ cfs, Impl.collect s frags vars sat fuel sels [] [] = some (cfs, vis') ∧
+      cview cfs = cview (Spec.group occs []) := by
+  obtain ⟨cfs, h1, h2⟩ := collect_view s frags vars sat fuel sels [] [] none occs vis' h
+    (by simpa [cview, keysOf] using hag)
+  exact ⟨cfs, h1, by rw [h2, cview_group]⟩
+
+/-- what the collected list looks like: response keys are distinct (so the `fieldsWF` hypothesis of
+`exec_eq_spec` is what Stage A delivers) -/
+theorem collected_keys_distinct (s : Schema) (frags : List Frag) (vars : Vars) (sat : List String)
+    (fuel : Nat) (sels : List Sel) (occs : List Spec.Occ) (vis' : List String)
+    (h : Spec.occurrences frags vars (appliesOf sat) fuel sels none [] = some (occs, vis'))
+    (hag : AgreeOn s (keysOf (oview occs))) :
+    ∃ cfs, Impl.collect s frags vars sat fuel sels [] [] = some (cfs, vis') ∧
+      (cfs.map (·.alias)).Nodup := by
+  obtain ⟨cfs, h1, h2⟩ := collect_view s frags vars sat fuel sels [] [] none occs vis' h
+    (by simpa [cview, keysOf] using hag)
+  refine ⟨cfs, h1, ?_⟩
+  have hu := Assoc.uniq_addAll κa (oview occs) (cview []) (by simp [cview, Assoc.Uniq, Assoc.keys])
+  rw [← h2] at hu
+  simpa [Assoc.Uniq, Assoc.keys, cview, cviewCF, κa, List.map_map, Function.comp_def] using hu
+
 /-! ## non-vacuity and the known finding -/
+
+/-- **F01 (known finding), as a theorem about the code's algorithm.** `T implements A & B` with `A`, `B`
+unrelated; `{ ... on A { x } ... on B { x } }` collected for `T`: gqlgen keeps two entries for the
+response key `x` (the resolver runs twice, the object gets a duplicate key); the Spec has one. The
+hypothesis `AgreeOn` of `collect_eq_spec` is exactly what fails. -/
+theorem collect_dup_witness :
+    let s : Schema := { query := "Query", types := [
+      { name := "A", kind := .interface }, { name := "B", kind := .interface },
+      { name := "T", kind := .object, interfaces := ["A", "B"], implementors := ["T", "A", "B"] }] }
+    let sels : List Sel := [.inline "A" [] [.field "x" "x" "A" [] []], .inline "B" [] [.field "x" "x" "B" [] []]]
+    (Impl.collect s [] [] ["T", "A", "B"] 10 sels [] []).map (fun r => r.1.map (·.alias)) = some ["x", "x"] ∧
+    (Spec.occurrences [] [] (appliesOf ["T", "A", "B"]) 10 sels none []).map
+      (fun r => (Spec.group r.1 []).map (·.alias)) = some ["x"] := by
+  decide
+
 
 /-- a plan with distinct keys: `{ a: x  t { y } }` -/
 example : fieldsWF [({ alias := "a", name := "x" }, Shape.leaf false),
